@@ -103,6 +103,10 @@ func (e *Engine) verifyFunction(name string) error {
 					e.unsupported[name] = append(e.unsupported[name], u.msg)
 					return
 				}
+				if u, ok := r.(specErr); ok {
+					e.unsupported[name] = append(e.unsupported[name], "contract error: "+u.msg)
+					return
+				}
 				panic(r)
 			}
 		}()
